@@ -119,6 +119,19 @@ _DAG = {
 }
 FAMILIES.update(_DAG)
 
+# the pattern's output node has several outputs of which only some are pattern outputs (`named`): the others are not
+# provided by the replacement, so the instance is removable only where nothing reads them (used by the fixed hosts of
+# c07.stream_partial_outputs only: the operand kinds differ from the [3,3] float world of the random generator)
+_PARTIAL = {
+    # y, _mask = Dropout(Neg(Neg(x)))  ->  re-emitted   (inference mode: y = x, mask all true; mask is bool [3,3])
+    "drop_part":  dict(pat=O("Dropout", O("Neg", O("Neg", V(0)))), tr="reemit", nv=1, nout=2, named=[0], partial=True),
+    # values, _indices = TopK(Neg(Neg(x)), k)  ->  values, _ = TopK(x, k)   (k = 3 on the last axis: indices int64 [3,3])
+    "topk_part":  dict(pat=O("TopK", O("Neg", O("Neg", V(0))), V(1)), tr="topk_strip", nv=2, nout=2, named=[0], partial=True),
+    # _values, indices = TopK(Abs(x), k)  ->  re-emitted   (the SECOND output is the pattern output)
+    "topk_idx":   dict(pat=O("TopK", O("Abs", V(0)), V(1)), tr="reemit", nv=2, nout=2, named=[1], partial=True),
+}
+FAMILIES.update(_PARTIAL)
+
 COMMUTATIVE = {"Add", "Mul", "Max", "Min"}
 
 
@@ -189,7 +202,12 @@ class RuleBox:
             _, opname, args, attrs = t
             memo = {}
             vals = [emit(op, a, env, swap, memo) for a in args]
-            return getattr(op, opname)(*vals, _outputs=nout, **attrs)
+            outs_ = getattr(op, opname)(*vals, _outputs=nout, **attrs)
+            named = spec.get("named")
+            if named is not None:                     # only some outputs of the node are pattern outputs
+                outs_ = tuple(outs_[i] for i in named)
+                return outs_[0] if len(outs_) == 1 else outs_
+            return outs_
 
         # ---- pattern function with the right arity (the rewriter inspects the signature)
         def make_fn(body):
@@ -213,6 +231,8 @@ class RuleBox:
                 out = emit_root(op, spec["pat"], env, swap=True)
             elif tr == "identity":
                 out = op.Identity(env[0])
+            elif tr == "topk_strip":
+                out = op.TopK(env[0], env[1], _outputs=2)[0]
             elif tr == "dtrans":
                 out = op.Transpose(op.Transpose(emit(op, spec["pat"], env), perm=PERM), perm=PERM)
             elif tr == "mul1_node":
@@ -257,6 +277,8 @@ class RuleBox:
             cv = spec.get("const_var")
             if cv is not None and (env[cv] is None or env[cv].const_value is None):
                 return False
+            if cv is not None and env[cv].is_graph_input():
+                return False                   # an initializer listed among the graph inputs is a default, not a constant
             return True
 
         src = f"def _c(context, {', '.join(names)}, **_):\n    return _body(context, [{', '.join(names)}])\n"
@@ -514,7 +536,8 @@ def to_model(host: Host, opset=18):
     import onnx
     from onnx import TensorProto, helper, numpy_helper
 
-    KIND = {"t": (TensorProto.FLOAT, [3, 3]), "b": (TensorProto.BOOL, []), "i": (TensorProto.INT64, [])}
+    KIND = {"t": (TensorProto.FLOAT, [3, 3]), "b": (TensorProto.BOOL, []), "i": (TensorProto.INT64, []),
+            "f0": (TensorProto.FLOAT, []), "tb": (TensorProto.BOOL, [3, 3]), "ti": (TensorProto.INT64, [3, 3])}
 
     def vi(name, kind):
         t, s = KIND[kind]
@@ -623,6 +646,8 @@ def find_instances(g: HGraph, family, const_ok, graph_outs=None):
             continue
         nout = spec.get("nout", 1)
         pouts = set(nodes[idx].outs[:nout])
+        if spec.get("named") is not None:
+            pouts = {nodes[idx].outs[k] for k in spec["named"]}
         removable = True
         for j in matched:
             for o in nodes[j].outs:
